@@ -145,6 +145,19 @@ def run(ctx, res):
         else:
             res.add(Finding("C05.R2", fn, "compared-operands", "comparison is not between self.current_time and the parsed instant: %s" % sorted(ords), loc=loc))
 
+        # R5: "unparseable" is what the parser rejects.  chrono's format-driven parser (read in its source, 0.4.38:
+        # format/parse.rs) lets a blank of the format match any run of white space including none, and lets every numeric field
+        # skip leading white space and take fewer digits than its width.  With the raw attribute text handed over unchecked,
+        # `2024-01-01\t00:00:00`, `2024-01-0100:00:00` or `2024-1-1 0:0:0` are therefore read as instants although they are not
+        # of the documented shape.  Reported unless the value (not the concatenation) is examined by anything but the parser.
+        shape_atoms = [k for o in outs for k in o["decisions"] if "%s.some.value.some" % ft in k and "parse_from_str" not in k and not k.startswith("is_some(")]
+        if got == want and not shape_atoms:
+            res.add(Finding("C05.R5", fn, "shape-unchecked", "the `to` value reaches chrono's white-space-lenient parser without a check of its shape: values that "
+                            "separate date and time by a tab, a line break, several blanks or nothing, or that shorten fields, are read as instants "
+                            "and make the element ready", loc=cl))
+        elif got == want:
+            res.holds("C05.R5", fn, "shape-unchecked", "the value is examined before it is parsed: %s" % shape_atoms[:2])
+
     # R4: registry + CLI wiring (shared with C03.R5 / C20.R1)
     n0 = len(res.findings)
     k = common.registry_wiring(ctx, res, "C05.R4", only="time_limited")
